@@ -80,6 +80,7 @@ fn main() {
         "fixed_locale" => fixedloc::sweep(seed),
         "filters" => filters::sweep(seed),
         "admission" => admission::sweep(seed),
+        "shutdown" => admission::shutdown(seed),
         "agones" => agones::histories(seed),
         "limits" => conn::limits(seed),
         "session" => conn::session(seed),
